@@ -227,6 +227,8 @@ OpsC08b ==  \* revocation of tokens of every age (expired ones included) by owne
   \cup {Revoke(c, "ok", "at", i, h) : i \in ATs, c \in {"A", "B"}, h \in {"at", "none"}}
   \cup TickOps
 
+\* a required-scope list that repeats itself is longer than any granted list and still covered exactly when its members are
+LongNeeds == {<<"a", "a", "a", "a", "a">>, <<"a", "b", "a", "b", "a">>}
 OpsC09 ==   \* introspection endpoint: callers, hints, required scopes, over states reached by all grant types
   (IF CanAuthz THEN {Authz("A", rt, Full, Full, <<AudA>>, "sent", "none") : rt \in {"code", "code_token"}}
                     \cup {Authz("A", "code", <<"openid", "offline", "a", "b">>, Full, <<>>, "sent", "none")}      \* partial consent: b requested, not granted
@@ -237,8 +239,8 @@ OpsC09 ==   \* introspection endpoint: callers, hints, required scopes, over sta
   \cup {Revoke(st.S.at[i].client, "ok", "at", i, "none") : i \in ATs}
   \cup {Introspect(c, caller, n, kind, t, h, need) :
           c \in {"A", "P"}, caller \in {"basic", "basic_bad", "none"}, n \in {0},
-          kind \in {"at"}, t \in ATs, h \in {"at", "rt", "none"}, need \in {<<>>, <<"a">>, <<"b">>, <<"a", "b">>, <<"b", "a">>}}
-  \cup {Introspect("A", "basic", 0, "rt", t, h, need) : t \in RTs, h \in {"at", "rt", "bad"}, need \in {<<>>, <<"offline">>, <<"b">>, <<"offline", "b">>}}
+          kind \in {"at"}, t \in ATs, h \in {"at", "rt", "none"}, need \in {<<>>, <<"a">>, <<"b">>, <<"a", "b">>, <<"b", "a">>} \cup LongNeeds}
+  \cup {Introspect("A", "basic", 0, "rt", t, h, need) : t \in RTs, h \in {"at", "rt", "bad"}, need \in {<<>>, <<"offline">>, <<"b">>, <<"offline", "b">>, <<"offline", "a", "offline", "a", "offline">>}}
   \cup {Introspect("A", caller, n, "at", t, "none", <<>>) : caller \in {"bearer", "self"}, n \in ATs, t \in ATs}
   \cup {Introspect("A", "bearer", t, "at", t, h, <<>>) : t \in ATs, h \in {"at", "rt", "bad"}}     \* a token vouching for itself, under every hint
   \cup {Introspect("A", "bearer_rt", n, "at", t, "none", <<>>) : n \in RTs, t \in ATs}
